@@ -1,7 +1,7 @@
 //! The checks c04, c05, c06, c07, c08, c09, c19 (see det.rs for the contract and the conventions).
 use super::corpus::{self, Case, Kind};
 use super::oracle;
-use super::{check_contract, fmt_offsets, install_panic_hook, run_real, Det, Run};
+use super::{check_contract, fmt_offsets, install_panic_hook, run_real, run_real_locs, Det, Run};
 use crate::json::J;
 use crate::report::{CheckResult, Rng};
 use solang_parser::pt;
@@ -80,6 +80,7 @@ pub fn run_contract_check(prop: &str, tier: &str, seed: u64) -> CheckResult {
     // "<prop>:<det>:<label>-<direction>@<pos>" of single-level failures (to attribute nested ones)
     let mut seen: BTreeSet<String> = BTreeSet::new();
     let mut base_failed: BTreeSet<String> = BTreeSet::new();
+    let mut tail_stems: BTreeSet<String> = BTreeSet::new();
     let mut programs = 0usize;
     for c in &cases {
         let su = match solang_parser::parse(&c.src, 0) {
@@ -124,8 +125,37 @@ pub fn run_contract_check(prop: &str, tier: &str, seed: u64) -> CheckResult {
                     ("source", J::s(c.src.clone())),
                 ]));
             }
+            if c.class == "same-name" && c.focus == Some(*d) {
+                // one protected and one unprotected function share a name: the key names direction and shape
+                for (offs, what, dir) in [(&v.missed, "same-name-unprotected", "missed"), (&v.unexpected, "same-name-protected", "reported")] {
+                    if let Some(off) = offs.first() {
+                        r.violate(
+                            &format!("{}:{}:{}-{}@{}", prop, d.name(), what, dir, c.pos),
+                            &format!("{}: of two functions with the same name ({}: {}) the {} one is {}", d.name(), c.pos, c.variant, if dir == "missed" { "unprotected" } else { "protected" }, dir),
+                            replay_argv(prop, d.name(), &c.src),
+                            format!("reported == must = {}", fmt_offsets(&c.src, &v.expect.must)),
+                            format!("reported = {} (offset {}, line {})", fmt_offsets(&c.src, &v.reported), off, super::line_of(&c.src, *off)),
+                        );
+                    }
+                }
+                continue;
+            }
             for off in &v.missed {
                 let lab = label(c, *d, &su, *off);
+                if !c.key_tail.is_empty() && lab == c.class {
+                    // enumerated family: the first (smallest) failing member names the key
+                    let stem = format!("{}:{}:{}-missed", prop, d.name(), lab);
+                    if tail_stems.insert(stem.clone()) {
+                        r.violate(
+                            &format!("{}:{}", stem, c.key_tail),
+                            &format!("{} does not report a canonical instance ({}, smallest failing member {} = {})", d.name(), lab, c.key_tail, c.variant),
+                            replay_argv(prop, d.name(), &c.src),
+                            format!("reported ⊇ must = {}", fmt_offsets(&c.src, &v.expect.must)),
+                            format!("reported = {}", fmt_offsets(&c.src, &v.reported)),
+                        );
+                    }
+                    continue;
+                }
                 let prefix = format!("{}:{}:{}-missed", prop, d.name(), lab);
                 let key = if c.pos == "random" {
                     // seeded compositions: one key per (detector, direction); single-factor templates name the precise class
@@ -143,8 +173,39 @@ pub fn run_contract_check(prop: &str, tier: &str, seed: u64) -> CheckResult {
             }
             for off in &v.unexpected {
                 let mut lab = label(c, *d, &su, *off);
+                if !c.key_tail.is_empty() && lab == c.class {
+                    let stem = format!("{}:{}:{}-reported", prop, d.name(), lab);
+                    if tail_stems.insert(stem.clone()) {
+                        r.violate(
+                            &format!("{}:{}", stem, c.key_tail),
+                            &format!("{} reports a construct outside its matching forms ({}, smallest failing member {} = {})", d.name(), lab, c.key_tail, c.variant),
+                            replay_argv(prop, d.name(), &c.src),
+                            format!("reported ⊆ may = {}", fmt_offsets(&c.src, &v.expect.may)),
+                            format!("reported = {}", fmt_offsets(&c.src, &v.reported)),
+                        );
+                    }
+                    continue;
+                }
                 let mut with_pos = false;
                 let mut plain = false;
+                if prop == "c08" && (*d == Det::ConstantVariables || *d == Det::ImmutableVariables || *d == Det::Sstore) {
+                    if let Some(m) = oracle::declared_mutability_at(&su, *off) {
+                        // a variable declared constant / immutable handled as if it were mutable
+                        let key = if c.pos == "attribute-order" {
+                            format!("{}:{}:declared-{}-treated-as-mutable@attribute-order", prop, d.name(), m)
+                        } else {
+                            format!("{}:{}:declared-{}-treated-as-mutable", prop, d.name(), m)
+                        };
+                        r.violate(
+                            &key,
+                            &format!("{} treats a variable declared {} as mutable (case {} / {} {})", d.name(), m, c.class, c.pos, c.variant),
+                            replay_argv(prop, d.name(), &c.src),
+                            format!("reported ⊆ may = {}", fmt_offsets(&c.src, &v.expect.may)),
+                            format!("reported = {} (unexpected offset {}, line {}: {})", fmt_offsets(&c.src, &v.reported), off, super::line_of(&c.src, *off), oracle::describe_offset(&su, *off, Some(*d))),
+                        );
+                        continue;
+                    }
+                }
                 if prop == "c08" && (*d == Det::ConstantVariables || *d == Det::ImmutableVariables) {
                     // a suggested variable that the file writes: name the write form and where the write is
                     if let Some(name) = oracle::state_variable_at(&su, *off) {
@@ -227,7 +288,7 @@ pub fn run_c04(tier: &str, seed: u64) -> CheckResult {
         for v in corpus::boundary_versions() {
             for (on, op) in corpus::OPERATORS {
                 let src = corpus::c09_file(Some(v), op, "both", &body);
-                cases.push(Case { src, focus: None, class: format!("c09:{}:{}", bn, on), kind: Kind::Mixed, pos: format!("{}.{}.{}", v.0, v.1, v.2), span: None, nested: vec![], variant: String::new() });
+                cases.push(Case { src, focus: None, class: format!("c09:{}:{}", bn, on), kind: Kind::Mixed, pos: format!("{}.{}.{}", v.0, v.1, v.2), span: None, nested: vec![], variant: String::new(), key_tail: String::new() });
             }
         }
     }
@@ -620,5 +681,129 @@ pub fn run_c19(tier: &str, seed: u64) -> CheckResult {
     r.extra.push(("programs_where_detector_reports".into(), counts_json(&nonempty)));
     r.extra.push(("inconclusive_because_of_panic".into(), J::arr_s(inconclusive.into_iter())));
     r.assumptions.push("items of a generated program never mention each other's state-variable names (names carry the item index)".into());
+    r
+}
+
+// ---------------------------------------------------------------------------------------------
+// C02 (location part): the reported location is the FIRST BYTE OF THE CONSTRUCT named under `loc` in section 8
+// ---------------------------------------------------------------------------------------------
+/// (start, end) of a reported location R and the offset of an expected construct E such that
+///   start(R) is not in `may`,  E is in `must` but not reported,  and the spans of R and E are nested:
+/// the right construct was found but another node's location was reported.
+pub fn wrong_node_locations(d: Det, su: &pt::SourceUnit) -> Vec<(usize, usize, usize)> {
+    let reported = match run_real_locs(d, su) {
+        Ok(r) => r,
+        Err(_) => return vec![],
+    };
+    if reported.is_empty() {
+        return vec![];
+    }
+    wrong_nodes(d, su, &reported)
+}
+
+fn wrong_nodes(d: Det, su: &pt::SourceUnit, reported: &[(usize, usize)]) -> Vec<(usize, usize, usize)> {
+    let x = oracle::expected(d, su);
+    let starts: BTreeSet<usize> = reported.iter().map(|r| r.0).collect();
+    let extra: Vec<&(usize, usize)> = reported.iter().filter(|r| !x.may.contains(&r.0)).collect();
+    let missing: Vec<usize> = x.must.iter().filter(|o| !starts.contains(o)).cloned().collect();
+    let mut out = vec![];
+    if extra.is_empty() || missing.is_empty() {
+        return out; // pure miss or pure extra report: C05..C09's business
+    }
+    for e in &missing {
+        let (lo, hi) = match oracle::extents_at(su, *e) {
+            Some(x) => x,
+            None => continue,
+        };
+        for r in &extra {
+            let r_inside_e = *e <= r.0 && r.1 <= hi;
+            let e_inside_r = r.0 <= *e && lo <= r.1;
+            if r_inside_e || e_inside_r {
+                out.push((r.0, r.1, *e));
+            }
+        }
+    }
+    out
+}
+
+pub fn run_c02_loc(tier: &str, seed: u64) -> CheckResult {
+    install_panic_hook();
+    let mut r = CheckResult::new("c02-loc");
+    // (cases, detectors run on them)
+    let mut groups: Vec<(Vec<Case>, Vec<Det>)> = vec![];
+    for p in ["c05", "c06", "c07", "c08"] {
+        let mut rng = Rng::new(seed);
+        let cases: Vec<Case> = corpus::corpus_for(p, tier, &mut rng).into_iter().filter(|c| c.key_tail.is_empty()).collect();
+        groups.push((cases, Det::of_prop(p)));
+    }
+    // version-gated detectors: the three bodies on both sides of both thresholds
+    let mut c09 = vec![];
+    for (bn, body) in corpus::c09_bodies() {
+        for v in [(0, 7, 6), (0, 8, 0), (0, 8, 3), (0, 8, 4), (0, 8, 10)] {
+            c09.push(Case { src: corpus::c09_file(Some(v), "", "both", &body), focus: None, class: format!("c09:{}", bn), kind: Kind::Mixed, pos: vstr(v), span: None, nested: vec![], variant: String::new(), key_tail: String::new() });
+        }
+    }
+    groups.push((c09, C09_DETS.to_vec()));
+    // multi-line payloads: with the detectors of the payload's property
+    let ml = corpus::corpus_multiline();
+    for p in ["c09"] {
+        // (the multi-line payloads of c05..c08 are part of those corpora)
+        let cases: Vec<Case> = ml.iter().filter(|c| c.focus.map(|d| d.prop()) == Some(p)).cloned().collect();
+        groups.push((cases, Det::of_prop(p)));
+    }
+    let mut programs = 0i64;
+    let mut pairs = 0i64;
+    let mut multi_line_pairs = 0i64;
+    let mut per_det: BTreeMap<&'static str, i64> = Det::all().iter().map(|d| (d.name(), 0)).collect();
+    for (cases, dets) in &groups {
+        for c in cases {
+            let su = match solang_parser::parse(&c.src, 0) {
+                Ok((su, _)) => su,
+                Err(_) => continue,
+            };
+            programs += 1;
+            for d in dets {
+                let reported = match run_real_locs(*d, &su) {
+                    Ok(x) => x,
+                    Err(_) => continue,
+                };
+                pairs += 1;
+                if reported.is_empty() {
+                    continue;
+                }
+                r.evaluations += 1;
+                *per_det.get_mut(d.name()).unwrap() += 1;
+                r.nontrivial.insert(format!("{}|{}|{}|{}", d.name(), c.class, c.pos, c.variant));
+                if reported.iter().any(|l| super::line_of(&c.src, l.0) != super::line_of(&c.src, l.1.min(c.src.len()))) {
+                    multi_line_pairs += 1;
+                }
+                let w = wrong_nodes(*d, &su, &reported);
+                if let Some((rs, re, e)) = w.first() {
+                    r.violate(
+                        &format!("c02:wrong-node-location:{}", d.name()),
+                        &format!("{} finds the construct but reports the location of another node of it (case {} in position class {})", d.name(), c.class, c.pos),
+                        replay_argv("c02-loc", d.name(), &c.src),
+                        format!("the location of the construct named under `loc` in DESIGN.md section 8: offset {} (line {})", e, super::line_of(&c.src, *e)),
+                        format!("reported {}..{} (line {}): {}", rs, re, super::line_of(&c.src, *rs), oracle::describe_offset(&su, *rs, Some(*d))),
+                    );
+                }
+                if r.samples.len() < 4 && c.class.starts_with("multiline") && c.focus == Some(*d) && c.pos == "stmt-expr" && (r.samples.len() as i64) * 400 < r.evaluations as i64 {
+                    r.sample(J::obj(vec![("detector", J::s(d.name())), ("class", J::s(c.class.clone())), ("reported", J::s(format!("{:?}", reported))), ("source", J::s(c.src.clone()))]));
+                }
+            }
+        }
+    }
+    r.rule = "evaluations = (detector, program) pairs on which the real detector reports at least one location; one nontrivial id per distinct (detector, payload class, position class, variant) among them".into();
+    r.bound = format!(
+        "{} programs / {} (detector, program) pairs: the corpora of c05, c06, c07, c08 (tier {}), the three version-gated bodies at 0.7.6/0.8.0/0.8.3/0.8.4/0.8.10, and {} multi-line canonical payloads (sub-nodes start on other lines than the construct) in every position template plus multi-line declaration files; each corpus with the detectors of its property",
+        programs,
+        pairs,
+        tier,
+        corpus::MULTILINE_PAYLOADS.len()
+    );
+    r.extra.push(("pairs_with_a_report_spanning_several_lines".into(), J::Num(multi_line_pairs)));
+    r.extra.push(("pairs_with_reports_per_detector".into(), counts_json(&per_det)));
+    r.assumptions.push("violation iff a reported location R has start(R) not in `may`, an expected construct E of `must` is not reported on the same program, and the spans of R and E are nested; plain misses and plain extra reports are left to C05..C09".into());
+    r.assumptions.push("bounded: generated corpus only; expected constructs come from the executable transcription of DESIGN.md section 8".into());
     r
 }
